@@ -184,6 +184,16 @@ def check_case(args):
   if not shared and canon.canon(old) != c_old:
     return 0, 0, [], []
   viols = check_pair(old, new, (name, list(edit_names), shared))
+  if not edit_names and not shared:
+    # the diff between a configuration and its deep copy is empty
+    try:
+      d0 = diffing.build_diff(old, new)
+      if tuple(d0.changes) or tuple(d0.new_shared_values):
+        viols.append(dict(label=(name, [], False), sig=name, store='deepcopy', op='diff', fkey=None,
+                          what=f'the diff between the configuration and its deep copy is not empty: '
+                               f'{[type(c).__name__ + str(c.target) for c in d0.changes][:4]}'))
+    except Exception:   # pylint: disable=broad-except
+      pass            # reported (keyed) by check_pair above
   for v in viols:
     v.update(config=name, edits=list(edit_names), shared=shared)
   return 1, 1 if edit_names else 0, viols, ([dict(config=name, edits=list(edit_names))]
